@@ -361,6 +361,34 @@ func ruleC08Call(p *Prog, a *Anchors, r *Report, res *ssa.Function) {
 						return false
 					})
 					if g {
+						// … also a nil pointer INSIDE the interface: a function declared (T, error) that returns a nil *MyError
+						// (e.g. hands on the library's own (*Value, *Error) result) yields a non-nil error holding a nil pointer
+						looksInside, viaPredicate := false, false
+						eachDominatingCond(in, func(cnd ssa.Value, pol bool) bool {
+							cc, ok := cnd.(*ssa.Call)
+							if !ok || cc.Common().StaticCallee() == nil || !p.InPkg(cc.Common().StaticCallee()) || cc.Common().StaticCallee().Blocks == nil {
+								return false
+							}
+							viaPredicate = true
+							for _, fn := range clusterOf(p, cc.Common().StaticCallee(), 1) {
+								for _, cb := range fn.Blocks {
+									for _, ci := range cb.Instrs {
+										if c2, isC := ci.(*ssa.Call); isC && c2.Common().StaticCallee() != nil && p.extName(c2.Common().StaticCallee()) == "(reflect.Value).Elem" {
+											looksInside = true
+										}
+									}
+								}
+							}
+							return false
+						})
+						switch {
+						case looksInside:
+							r.OK("resolve:Call:error-result:nil-in-interface", p.InstrPos(in), "the nil test also looks at what an interface-typed result holds")
+						case viaPredicate:
+							r.Bad("resolve:Call:error-result:nil-in-interface", p.InstrPos(in), "the nil test of the second result stops at the interface: for func f() (T, error) that returns a nil *MyError (e.g. hands on a (*Value, *Error) result) the error is non-nil, holds a nil pointer, and printing it panics outside any recover")
+						default:
+							r.Assume("resolve:Call:error-result:nil-in-interface", p.InstrPos(in), "the nil test is written inline; whether it looks inside an interface is not decided")
+						}
 						r.OK("resolve:Call:error-result:nil-pointer", p.InstrPos(in), "the second result is looked at as an error only when it is not a nil pointer/interface")
 					} else {
 						r.Bad("resolve:Call:error-result:nil-pointer", p.InstrPos(in), "the second result is boxed with Interface() and compared with nil without asking whether it is a nil pointer: for func f() (T, *MyError) a successful call (nil *MyError) ends the execution with a nil error, and printing that error panics")
